@@ -282,25 +282,29 @@ theorem tryEnc_false (can : Str → Bool) (att : List Str) (n : Str)
     · exact hn
     · exact hinv m hm'
 
-theorem csLoop_cons (can : Str → Bool) (stream : Bool) (e : Elem) (es : List Elem) (att : List Str) :
-    csLoop can stream (e :: es) att =
+/-- a `*` element the loop passes over: the field ranks the default charset itself -/
+def shadowed (d : Bool) (e : Elem) : Prop := e.value = sStar ∧ d = true
+
+theorem csLoop_cons (can : Str → Bool) (stream d : Bool) (e : Elem) (es : List Elem) (att : List Str) :
+    csLoop can stream d (e :: es) att =
       match e.q with
       | .bad => .inl .err400
       | .exotic => .inl .exotic
       | q =>
         if q.isPos then
-          if (tryEnc can stream att (nameOf e)).1 then .inl (.chosen (nameOf e))
-          else csLoop can stream es (tryEnc can stream att (nameOf e)).2
-        else csLoop can stream es att := by
+          if e.value = sStar ∧ d = true then csLoop can stream d es att
+          else if (tryEnc can stream att (nameOf e)).1 then .inl (.chosen (nameOf e))
+          else csLoop can stream d es (tryEnc can stream att (nameOf e)).2
+        else csLoop can stream d es att := by
   simp only [csLoop, nameOf]
   rfl
 
-/-- buffered loop, a charset was chosen: it is the first element with q > 0 whose charset can encode
-    the body; every earlier element with q > 0 cannot -/
-theorem csLoop_chosen (can : Str → Bool) (es : List Elem) (att : List Str) (c : Str)
-    (hinv : ∀ m ∈ att, can m = false) (h : csLoop can false es att = .inl (.chosen c)) :
-    ∃ pre e post, es = pre ++ e :: post ∧ e.q.isPos = true ∧ c = nameOf e ∧ can c = true ∧
-      ∀ e' ∈ pre, e'.q.isPos = true → can (nameOf e') = false := by
+/-- buffered loop, a charset was chosen: it is the first effective element (q > 0, not a shadowed `*`)
+    whose charset can encode the body; every earlier effective element cannot -/
+theorem csLoop_chosen (can : Str → Bool) (d : Bool) (es : List Elem) (att : List Str) (c : Str)
+    (hinv : ∀ m ∈ att, can m = false) (h : csLoop can false d es att = .inl (.chosen c)) :
+    ∃ pre e post, es = pre ++ e :: post ∧ e.q.isPos = true ∧ ¬ shadowed d e ∧ c = nameOf e ∧ can c = true ∧
+      ∀ e' ∈ pre, e'.q.isPos = true → ¬ shadowed d e' → can (nameOf e') = false := by
   induction es generalizing att with
   | nil => simp [csLoop] at h
   | cons e es ih =>
@@ -311,32 +315,42 @@ theorem csLoop_chosen (can : Str → Bool) (es : List Elem) (att : List Str) (c 
     · split at h
       · rename_i hpos
         split at h
-        · rename_i htry
-          have hc : c = nameOf e := by
-            simp only [Sum.inl.injEq, CsResult.chosen.injEq] at h
-            exact h.symm
-          refine ⟨[], e, es, rfl, hpos, hc, ?_, by simp⟩
-          rw [hc]; exact tryEnc_true can att _ htry
-        · rename_i htry
-          have hf := tryEnc_false can att _ hinv (by simpa using htry)
-          obtain ⟨pre, e1, post, hes, hp, hc, hcan, hpre⟩ := ih _ hf.2 h
-          refine ⟨e :: pre, e1, post, by simp [hes], hp, hc, hcan, ?_⟩
-          intro e' he' hq
+        · rename_i hsh
+          obtain ⟨pre, e1, post, hes, hp, hns, hc, hcan, hpre⟩ := ih _ hinv h
+          refine ⟨e :: pre, e1, post, by simp [hes], hp, hns, hc, hcan, ?_⟩
+          intro e' he' hq hn
           rcases List.mem_cons.mp he' with rfl | hm
-          · exact hf.1
-          · exact hpre e' hm hq
+          · exact absurd hsh hn
+          · exact hpre e' hm hq hn
+        · rename_i hsh
+          split at h
+          · rename_i htry
+            have hc : c = nameOf e := by
+              simp only [Sum.inl.injEq, CsResult.chosen.injEq] at h
+              exact h.symm
+            refine ⟨[], e, es, rfl, hpos, hsh, hc, ?_, by simp⟩
+            rw [hc]; exact tryEnc_true can att _ htry
+          · rename_i htry
+            have hf := tryEnc_false can att _ hinv (by simpa using htry)
+            obtain ⟨pre, e1, post, hes, hp, hns, hc, hcan, hpre⟩ := ih _ hf.2 h
+            refine ⟨e :: pre, e1, post, by simp [hes], hp, hns, hc, hcan, ?_⟩
+            intro e' he' hq hn
+            rcases List.mem_cons.mp he' with rfl | hm
+            · exact hf.1
+            · exact hpre e' hm hq hn
       · rename_i hpos
-        obtain ⟨pre, e1, post, hes, hp, hc, hcan, hpre⟩ := ih _ hinv h
-        refine ⟨e :: pre, e1, post, by simp [hes], hp, hc, hcan, ?_⟩
-        intro e' he' hq
+        obtain ⟨pre, e1, post, hes, hp, hns, hc, hcan, hpre⟩ := ih _ hinv h
+        refine ⟨e :: pre, e1, post, by simp [hes], hp, hns, hc, hcan, ?_⟩
+        intro e' he' hq hn
         rcases List.mem_cons.mp he' with rfl | hm
         · exact absurd hq hpos
-        · exact hpre e' hm hq
+        · exact hpre e' hm hq hn
 
-/-- buffered loop, nothing chosen: no element with q > 0 can encode the body -/
-theorem csLoop_inr (can : Str → Bool) (es : List Elem) (att att' : List Str)
-    (hinv : ∀ m ∈ att, can m = false) (h : csLoop can false es att = .inr att') :
-    (∀ m ∈ att', can m = false) ∧ ∀ e ∈ es, e.q.isPos = true → can (nameOf e) = false := by
+/-- buffered loop, nothing chosen: no effective element can encode the body -/
+theorem csLoop_inr (can : Str → Bool) (d : Bool) (es : List Elem) (att att' : List Str)
+    (hinv : ∀ m ∈ att, can m = false) (h : csLoop can false d es att = .inr att') :
+    (∀ m ∈ att', can m = false) ∧
+      ∀ e ∈ es, e.q.isPos = true → ¬ shadowed d e → can (nameOf e) = false := by
   induction es generalizing att with
   | nil =>
     simp only [csLoop, Sum.inr.injEq] at h
@@ -350,26 +364,34 @@ theorem csLoop_inr (can : Str → Bool) (es : List Elem) (att att' : List Str)
     · split at h
       · rename_i hpos
         split at h
-        · simp at h
-        · rename_i htry
-          have hf := tryEnc_false can att _ hinv (by simpa using htry)
-          obtain ⟨h1, h2⟩ := ih _ hf.2 h
+        · rename_i hsh
+          obtain ⟨h1, h2⟩ := ih _ hinv h
           refine ⟨h1, ?_⟩
-          intro e' he' hq
+          intro e' he' hq hn
           rcases List.mem_cons.mp he' with rfl | hm
-          · exact hf.1
-          · exact h2 e' hm hq
+          · exact absurd hsh hn
+          · exact h2 e' hm hq hn
+        · split at h
+          · simp at h
+          · rename_i htry
+            have hf := tryEnc_false can att _ hinv (by simpa using htry)
+            obtain ⟨h1, h2⟩ := ih _ hf.2 h
+            refine ⟨h1, ?_⟩
+            intro e' he' hq hn
+            rcases List.mem_cons.mp he' with rfl | hm
+            · exact hf.1
+            · exact h2 e' hm hq hn
       · rename_i hpos
         obtain ⟨h1, h2⟩ := ih _ hinv h
         refine ⟨h1, ?_⟩
-        intro e' he' hq
+        intro e' he' hq hn
         rcases List.mem_cons.mp he' with rfl | hm
         · exact absurd hq hpos
-        · exact h2 e' hm hq
+        · exact h2 e' hm hq hn
 
 
-theorem csLoop_ne_406 (can : Str → Bool) (stream : Bool) (es : List Elem) (att : List Str) :
-    csLoop can stream es att ≠ .inl .notAcceptable := by
+theorem csLoop_ne_406 (can : Str → Bool) (stream d : Bool) (es : List Elem) (att : List Str) :
+    csLoop can stream d es att ≠ .inl .notAcceptable := by
   induction es generalizing att with
   | nil => simp [csLoop]
   | cons e es ih =>
@@ -379,8 +401,10 @@ theorem csLoop_ne_406 (can : Str → Bool) (stream : Bool) (es : List Elem) (att
     · simp
     · split
       · split
-        · simp
         · exact ih _
+        · split
+          · simp
+          · exact ih _
       · exact ih _
 
 end CpProofs.C17
